@@ -104,3 +104,10 @@ func (v *VerifSender) HoldProgress() (release func()) {
 	v.s.progressMu.Lock()
 	return v.s.progressMu.Unlock
 }
+
+// SetTransferCloser is what runICEQUICTransfer does once its primary QUIC
+// connection is up (after connect_ok): it registers the function that closes
+// that connection on the slot the peer id currently holds.
+func (v *VerifSender) SetTransferCloser(peerID string, fn func()) {
+	v.s.setTransferCloser(peerID, fn)
+}
